@@ -40,6 +40,20 @@ def diff(res, family, cases, impl=None, model=None, nontrivial=None, known=None,
             k += 1
     if k:
         res.notes.append('%s: %d disagreement(s) implementation vs model (%s level)' % (family, k, level))
+    # extraction cross-check: the same definitions evaluated by vm_compute inside Coq, on a small sample
+    if cases and family not in res.vm_checked:
+        res.vm_checked.add(family)
+        n = 6 if res.tier == 'quick' else 60
+        idx = sorted(set(int(j * (len(cases) - 1) / max(1, n - 1)) for j in range(min(n, len(cases)))))
+        idx = [j for j in idx if all(ord(ch) < 0x110000 for ch in cases[j]) and len(cases[j]) < 3000][:n]
+        try:
+            cnt, bad = V.vm_crosscheck(family, [cases[j] for j in idx], [model[j] for j in idx])
+            res.vm_lines += cnt
+            for b in bad[:2]:
+                res.notes.append('EXTRACTION CROSS-CHECK MISMATCH in %s: %r' % (family, b if isinstance(b, str) else b[0][:200]))
+                res.violation(family, b if isinstance(b, str) else b[0], b[1] if not isinstance(b, str) else None, b[2] if not isinstance(b, str) else None, 'vm_compute vs extraction', 'the extracted program and the in-Coq evaluation of the model disagree (trusted-base failure)', suffix='no-failing-input-found')
+        except Exception as e:
+            res.notes.append('vm cross-check skipped for %s: %r' % (family, e))
     return impl, model
 
 def parse_movegen(obs):
@@ -671,6 +685,12 @@ def run_check(pid, tier, seed):
     elif proofs['errors']:
         res.notes.append('proof obligations broken: ' + ' ; '.join(proofs['errors'])[:2000])
     rule = extra.pop('rule', '')
+    extra['extraction_crosscheck_lines'] = res.vm_lines
+    if tier == 'thorough':
+        ok, report = V.coqchk(pid)
+        extra['coqchk'] = {'ok': ok, 'report': report}
+        if not ok:
+            res.violation('proof', None, None, None, 'coqchk', 'coqchk rejects the compiled property file: ' + report[-600:], suffix='no-failing-input-found')
     return V.finish(res, proofs, rule=rule, assumptions=ASSUME.get(pid, []), extra=extra)
 
 def replay(path):
